@@ -17,7 +17,7 @@ func init() {
 		Title: "Input reader failures end the transform with a fatal error",
 		Explanation: "Input sources are resolved by role: calls from the format-reader packages and idr to functions outside the repository that return an error and whose receiver or a parameter is (or transitively wraps) an io reader (csv.Reader.Read, ios.ByteReadLine, bufio.Scanner.Err, json/xml Decoder.Token, ios.StripBOM); the error-class analysis A3 (classes NIL/EOF/FATAL(T)/ETF/PLAIN/FOREIGN(f)/PARAM/IFACE with nil-, io.EOF- and IsErrX-narrowing and bottom-up summaries) tracks them through repository wrappers. " +
 			"R16a for every error value that may carry an input failure (a source call or a repository call whose summary still contains FOREIGN(source)): every return dominated by its `!= nil` edge and not by an `== io.EOF` edge returns only FATAL(T) classes or passes the value up unchanged (so io.EOF or a plain/continuable error is never manufactured from an I/O failure); at the top the fully resolved class set of each built-in FormatReader.Read contains no FOREIGN/unresolved class, io.EOF and every FATAL(T) in it is non-continuable for that reader's IsContinuableError (abstract interpretation A8); " +
-			"R16b every such value reaches a nil test whose failure branch never re-joins the normal flow, or is returned/latched; a value that is discarded or only compared with io.EOF is reported; " +
+			"R16b every such value reaches a nil test whose failure branch never re-joins the normal flow (a branch that only falls into the return block of a single-exit function, with a non-nil error on each of its edges, counts as returning; R16a then judges the error of those edges), or is returned/latched; a value that is discarded or only compared with io.EOF is reported; " +
 			"R16c in NewTransform the error of the BOM-stripping read is tested, returned with a nil Transform, and the ingester is created only on the nil edge; " +
 			"R16d the built-in ingester returns the format reader's error value itself on its failure branch (no continuable wrapper).",
 		NotDecided: "that every result before the fault equals the fault-free run; the behaviour of the wrapped library readers (encoding/csv, bufio, encoding/json, encoding/xml, go-corelib ios) when the source fails mid-token, in particular that they surface the failure through the error result the rules track; an I/O failure cannot be told apart from a parse error coming out of the same library call (so treating *csv.ParseError as continuable is reported together with I/O failures for the old csv reader); the bound on the number of Reads follows from R01a of C01 once the class is fatal.",
@@ -304,23 +304,20 @@ func (x *c16ctx) checkValue(fn *ssa.Function, call *ssa.Call, idx int, callee st
 	default:
 		c.OK("R16b", keyB, core.InstrPos(call), "returned or latched unchanged (classes tracked by A3)")
 	}
-	for _, rt := range ecReturns(fn) {
-		facts := e.factsAt(ecPointOf(rt))
-		if !ecFailureCause(facts, v) {
-			continue
-		}
+	for _, fr := range e.failureReturns(fn, func(facts []ecFact) bool { return ecFailureCause(facts, v) }) {
+		rt := fr.Rt
 		var bad, und []string
 		passed := false
 		for _, i := range ecErrResultIdx(fn.Signature) {
 			if i >= len(rt.Results) {
 				continue
 			}
-			rv := rt.Results[i]
+			rv := ecResultOnEdge(rt, i, fr.Edge)
 			if ecUnwrapIface(rv) == ecUnwrapIface(v) {
 				passed = true
 				continue
 			}
-			for _, el := range e.classAt(rv, ecPointOf(rt)).sorted() {
+			for _, el := range e.classAt(rv, fr.Pt).sorted() {
 				if (el.Kind == ecEOF || el.Kind == ecNIL) && el.Why == ecPassThrough(v) {
 					continue // a helper hands the value itself through when it is io.EOF / nil
 				}
@@ -387,14 +384,12 @@ func (x *c16ctx) checkNewTransform() {
 					continue
 				}
 				okAll, n := true, 0
-				for _, rt := range ecReturns(fn) {
-					if !ecFailureCause(e.factsAt(ecPointOf(rt)), v) {
-						continue
-					}
+				for _, fr := range e.failureReturns(fn, func(facts []ecFact) bool { return ecFailureCause(facts, v) }) {
 					n++
-					for i, rv := range rt.Results {
+					for i := range fr.Rt.Results {
+						rv := ecResultOnEdge(fr.Rt, i, fr.Edge)
 						if ecIsError(fn.Signature.Results().At(i).Type()) {
-							if e.classAt(rv, ecPointOf(rt)).has(ecNIL) {
+							if e.classAt(rv, fr.Pt).has(ecNIL) {
 								okAll = false
 							}
 						} else if !core.IsNilConst(rv) {
@@ -499,21 +494,19 @@ func (x *c16ctx) checkIngesters() {
 				continue
 			}
 			m := 0
-			for _, rt := range ecReturns(ig.Read) {
-				facts := e.factsAt(ecPointOf(rt))
-				nonNil := false
+			for _, fr := range e.failureReturns(ig.Read, func(facts []ecFact) bool {
 				for _, f := range facts {
 					if f.Kind == "nil" && !f.Pos && f.V == ecUnwrapIface(v) {
-						nonNil = true
+						return true
 					}
 				}
-				if !nonNil {
-					continue
-				}
+				return false
+			}) {
+				rt := fr.Rt
 				m++
 				same := false
-				for i, rv := range rt.Results {
-					if ecIsError(ig.Read.Signature.Results().At(i).Type()) && ecUnwrapIface(rv) == ecUnwrapIface(v) {
+				for i := range rt.Results {
+					if ecIsError(ig.Read.Signature.Results().At(i).Type()) && ecUnwrapIface(ecResultOnEdge(rt, i, fr.Edge)) == ecUnwrapIface(v) {
 						same = true
 					}
 				}
